@@ -63,6 +63,7 @@ func VerifPathLock() {
 		nKinds = 7
 	}
 	var open *File
+	grown := false
 	nSteps := verifParam("steps", 3)
 	for step := 0; step < nSteps; step++ {
 		verifAssert(verifFlockHeld(lockPath) == (open != nil), "the path lock is held exactly while a File is open")
@@ -72,8 +73,8 @@ func VerifPathLock() {
 				tx, berr := open.Begin()
 				verifAssert(berr == nil, "Begin succeeds on the open File")
 				n := 1
-				if opts.MaxSize == 0 {
-					n = 70
+				if opts.MaxSize == 0 && !grown {
+					n, grown = 70, true
 				}
 				if ps, aerr := tx.AllocN(n); aerr == nil {
 					_ = ps[0].SetBytes(verifBuf(1, 2, 3))
@@ -216,12 +217,12 @@ func VerifPathLockResizeFail() {
 	defer os.RemoveAll(dir)
 	path := filepath.Join(dir, "queue.dat")
 	lockPath := path + ".lock"
-	opts := Options{MaxSize: 64 * verifPageSize, PageSize: verifPageSize}
+	opts := Options{MaxSize: 96 * verifPageSize, PageSize: verifPageSize}
 	f0, err0 := Open(path, 0600, opts)
 	verifAssert(err0 == nil, "creating the file succeeds")
 	verifAssert(f0.Close() == nil, "Close succeeds")
 	o := opts
-	newMax := []uint64{96, 48}[verifChoose(2)]
+	newMax := []uint64{128, 64}[verifChoose(2)]
 	o.MaxSize, o.Flags, o.Prealloc = newMax*verifPageSize, FlagUpdMaxSize, verifBool("prealloc")
 	verifChoose(len(verifFaultKinds))
 	verifChoose(3)
